@@ -533,9 +533,10 @@ func genCase(t *rapid.T) Case {
 
 func init() {
 	vh.Describe(
-		"Operation alphabet (19): insert another document (2), calculate, edit the document (through the pointer obtained when the document was put in place and kept since - the envelope is not asked again), drop / set its code (through a fresh Extract), sign with key 1 / key 2, unsign, add stamp (2 providers, replacing), add two stamps of one provider, add / alter a link, add two links of one key, validate, verify with key 1 and without any key, serialise+parse, and parsing the envelope with a signature list of [\"\"] or [null] (the first also built in memory: a signature that holds nothing must not validate). Every sequence up to length 3 (thorough: 5 for the first base, 4 for the others) from three example invoices of different regimes is enumerated exhaustively; rapid draws sequences of length 4-30. Reference machine over the four facts (digest matches; document valid for signing = carries a code and no duplicate header entries; signatures present; header still contains each signed header): it predicts ok / error key of sign and validate, the verdict of verify and the signature count after every step; invariants: a failed Sign leaves zero signatures, a validating envelope with stamps is signed, every signature entry is real (non-empty, parses back), validate and serialise+parse do not change the envelope. Non-trivial: the history contains an interaction pair (e.g. sign after edit, stamp after unsign, second signature after a header change) or an odd signature list.",
+		"Operation alphabet (19): insert another document (2), calculate, edit the document (through the pointer obtained when the document was put in place and kept since - the envelope is not asked again), drop / set its code (through a fresh Extract), sign with key 1 / key 2, unsign, add stamp (2 providers, replacing), add two stamps of one provider, add / alter a link, add two links of one key, validate, verify with key 1 and without any key, serialise+parse, and parsing the envelope with a signature list of [\"\"] or [null] (the first also built in memory: a signature that holds nothing must not validate). Every sequence up to length 3 (thorough: 5 for the first base, 4 for the others) from three example invoices of different regimes is enumerated exhaustively; rapid draws sequences of length 4-30. Reference machine over the four facts (digest matches; document valid for signing = carries a code and no duplicate header entries; signatures present; header still contains each signed header): it predicts ok / error key of sign and validate, the verdict of verify and the signature count after every step; invariants: a failed Sign leaves zero signatures, a validating envelope with stamps is signed, every signature entry is real (non-empty, parses back), validate and serialise+parse do not change the envelope. `code_rule`: one example of every regime for invoices, orders, deliveries and payments, given every type its schema publishes and stripped of its code: a valid draft that Sign must refuse, leaving no signature. Non-trivial: the history contains an interaction pair (e.g. sign after edit, stamp after unsign, second signature after a header change) or an odd signature list.",
 		"the base documents are valid examples; edits keep them structurally valid",
 	)
 	vh.Enum("exhaustive", enumAll, judge)
 	vh.Rapid("long_histories", 3_000, 160_000, genCase, judge)
+	vh.Enum("code_rule", enumCodeRule, judgeCodeRule)
 }
